@@ -14,6 +14,7 @@ use simple_sds::sparse_vector::{SparseBuilder, SparseVector};
 use std::convert::TryFrom;
 
 pub mod catalogue;
+pub mod rawmodel;
 pub mod wmcheck;
 
 /// Bounds-monitor hit counter of the library build (0 when the hooks are compiled out).
